@@ -16,7 +16,7 @@ RULE = (
 )
 ASSUMPTIONS = c01.ASSUMPTIONS + ["wall-clock hangs in user code are outside the model (a hang of the harness run is reported as a disagreement)"]
 CASE_TIMEOUT = 60
-CORPUS = c01.CORPUS[:4]
+CORPUS = c01.CORPUS[:5]
 
 
 def generate(rng, tier):
